@@ -63,7 +63,10 @@ Seconds == <<115, 101, 99, 111, 110, 100, 115>>
 Minutes == <<109, 105, 110, 117, 116, 101, 115>>
 Hours   == <<104, 111, 117, 114, 115>>
 Days    == <<100, 97, 121, 115>>
+Millis  == <<109, 105, 108, 108, 105>> \o Seconds           \* "milliseconds"
+Micros  == <<109, 105, 99, 114, 111>> \o Seconds             \* "microseconds"
 PeriodStr(p) == CASE p = "seconds" -> Seconds [] p = "minutes" -> Minutes [] p = "hours" -> Hours [] p = "days" -> Days
+                  [] p = "milliseconds" -> Millis [] p = "microseconds" -> Micros
 Since == <<32, 115, 105, 110, 99, 101, 32>>           \* " since "
 
 \* '<unit> since YYYY-MM-DD HH:MM:SS +HH:MM'
